@@ -621,6 +621,9 @@ func runRecording(sc *scenario, tmp string) *epoch {
 		return mx.MakeErr(cls, a+len(pt.Rcpt), "c02")
 	}
 
+	if sc.Fault != nil {
+		defer sc.Fault.disarm()
+	}
 	theRec.begin(dir, e.lg, sc.Sparse)
 	q, pan, err := e.newQueue(dir, sc.MaxTries, recordingParallelism)
 	if pan != "" || err != nil {
@@ -653,6 +656,9 @@ func runRecording(sc *scenario, tmp string) *epoch {
 			}
 		}
 		e.lg.Add(mx.Event{Kind: "h.start", MsgID: m.ID})
+		if sc.Fault != nil && m.Fate == fateIOError {
+			sc.Fault.arm(dir, m.ID)
+		}
 		d, err := entry.Start(ctx, m.metadata(), m.From)
 		if err != nil {
 			ep.Why = "queue refused Start: " + err.Error()
@@ -683,7 +689,22 @@ func runRecording(sc *scenario, tmp string) *epoch {
 		if sc.Gate && k == len(sc.Msgs)-1 {
 			bodyOnce.Do(func() { close(bodyStarted) })
 		}
-		if err := d.Body(ctx, m.hdr, m.body); err != nil {
+		err = d.Body(ctx, m.hdr, m.body)
+		if sc.Fault != nil && m.Fate == fateIOError {
+			// the window ends here: Commit / Abort of the queue are not part of
+			// "accepting" as far as injected faults go (Commit makes no
+			// file-system call; Abort must be able to clean up)
+			sc.Fault.disarm()
+		}
+		if err != nil {
+			if sc.Fault != nil && m.Fate == fateIOError && sc.Fault.didFire() {
+				// DATA failed with the injected I/O error: the client is told so
+				// and the transaction is aborted, as msgpipeline / the endpoint do
+				e.lg.Add(mx.Event{Kind: "h.body.ioerr", MsgID: m.ID, Err: err.Error()})
+				aerr := d.Abort(ctx)
+				e.lg.Add(mx.Event{Kind: "h.abort", MsgID: m.ID, Err: errText(aerr)})
+				continue
+			}
 			if sc.Pipeline && m.abortedByScript(err) {
 				// DATA failed because the other target or a check refused the
 				// message; the endpoint aborts the transaction
